@@ -66,7 +66,7 @@ func (w *world) sumSolver() *solver {
 
 func (w *world) sumFeasible(extra *Term) satResult {
 	sv := w.sumSolver()
-	sv.send("(push 1)")
+	sv.reset()
 	for _, c := range w.sum.pc {
 		sv.assert(c)
 	}
@@ -74,13 +74,7 @@ func (w *world) sumFeasible(extra *Term) satResult {
 	if r == rSat {
 		sv.endModel(extra != nil)
 	}
-	sv.send("(pop 1)")
-	// definitions made inside the popped scope are gone
-	sv.defined = make(map[int]bool)
-	dv := sv.declVars
-	sv.declared = make(map[string]bool)
-	sv.declVars = nil
-	_ = dv
+	sv.reset()
 	return r
 }
 
